@@ -34,6 +34,10 @@ pub struct Compiler {
     /// Try block depth (for determining if we're in a try block)
     try_depth: usize,
 
+    /// Number of block scopes (PushScope without its PopScope) open at the current
+    /// emission point; break/continue use it to tell the VM how many scopes they leave
+    scope_depth: usize,
+
     /// Set of variables that have been hoisted in the current scope
     /// Used to determine if we should emit DeclareVarHoisted or SetVar
     hoisted_vars: FxHashSet<JsString>,
@@ -92,6 +96,10 @@ struct LoopContext {
     /// Iterator register for for-of loops (for iterator close protocol)
     /// When set, break/return/throw should call iterator.return()
     iterator_reg: Option<Register>,
+    /// Block scope depth at the break/continue targets of this context
+    scope_depth: usize,
+    /// True for a switch statement: `break` targets it, an unlabeled `continue` does not
+    is_switch: bool,
 }
 
 impl Compiler {
@@ -102,6 +110,7 @@ impl Compiler {
             loop_stack: Vec::new(),
             labels: FxHashMap::default(),
             try_depth: 0,
+            scope_depth: 0,
             hoisted_vars: FxHashSet::default(),
             loop_var_redirects: FxHashMap::default(),
             class_context_stack: Vec::new(),
@@ -253,7 +262,40 @@ impl Compiler {
             continue_jumps: Vec::new(),
             try_depth: self.try_depth,
             iterator_reg,
+            scope_depth: self.scope_depth,
+            is_switch: false,
         });
+    }
+
+    /// Push the break context of a switch statement
+    fn push_switch(&mut self) {
+        self.push_loop(None);
+        if let Some(ctx) = self.loop_stack.last_mut() {
+            ctx.is_switch = true;
+        }
+    }
+
+    /// Emit PushScope and track the open block scope
+    fn emit_push_scope(&mut self) {
+        self.builder.emit(Op::PushScope);
+        self.scope_depth += 1;
+    }
+
+    /// Emit PopScope for the innermost open block scope
+    fn emit_pop_scope(&mut self) {
+        self.builder.emit(Op::PopScope);
+        self.scope_depth = self.scope_depth.saturating_sub(1);
+    }
+
+    /// Number of block scopes a break/continue to the given context leaves
+    fn scopes_to_leave(&self, loop_idx: usize) -> Result<u8, JsError> {
+        let target_depth = self
+            .loop_stack
+            .get(loop_idx)
+            .map(|ctx| ctx.scope_depth)
+            .unwrap_or(0);
+        u8::try_from(self.scope_depth.saturating_sub(target_depth))
+            .map_err(|_| JsError::internal_error("Too many nested block scopes"))
     }
 
     /// Set the continue target for the current loop and patch any pending continue jumps
@@ -359,9 +401,11 @@ impl Compiler {
         }
 
         // Emit Break opcode with placeholder target
+        let scopes = self.scopes_to_leave(loop_idx)?;
         let idx = self.builder.emit(Op::Break {
             target: 0,
             try_depth: target_try_depth,
+            scopes,
         });
         let jump = JumpPlaceholder {
             instruction_index: idx,
@@ -384,9 +428,10 @@ impl Compiler {
                 ))
             })?
         } else {
+            // An unlabeled continue targets the innermost loop, not an enclosing switch
             self.loop_stack
-                .len()
-                .checked_sub(1)
+                .iter()
+                .rposition(|ctx| !ctx.is_switch)
                 .ok_or_else(|| JsError::syntax_error_simple("Illegal continue statement"))?
         };
 
@@ -396,6 +441,17 @@ impl Compiler {
             .get(loop_idx)
             .map(|ctx| ctx.try_depth)
             .unwrap_or(0) as u8;
+        // A label wraps its loop: the continue target belongs to the loop's own context,
+        // which may sit inside scopes the label's context does not know about
+        let scope_idx = self
+            .loop_stack
+            .iter()
+            .enumerate()
+            .skip(loop_idx)
+            .find(|(_, ctx)| ctx.label.is_none())
+            .map(|(i, _)| i)
+            .unwrap_or(loop_idx);
+        let scopes = self.scopes_to_leave(scope_idx)?;
 
         if let Some(ctx) = self.loop_stack.get_mut(loop_idx) {
             if let Some(target) = ctx.continue_target {
@@ -403,12 +459,14 @@ impl Compiler {
                 self.builder.emit(Op::Continue {
                     target: target as u32,
                     try_depth: target_try_depth,
+                    scopes,
                 });
             } else {
                 // Target not yet known, save placeholder
                 let idx = self.builder.emit(Op::Continue {
                     target: 0,
                     try_depth: target_try_depth,
+                    scopes,
                 });
                 let jump = JumpPlaceholder {
                     instruction_index: idx,
